@@ -11,13 +11,14 @@ from core.common import f2b, b2f, close
 from core import impl as I
 
 ID = "C03"
-LEAN_MODULES = ["AcnProofs.C03"]
+LEAN_MODULES = ["AcnProofs.C03", "AcnProofs.Lemmas.CodeTieBattery"]
 DRIVER = "drv_C03"
 REQUIRED_THEOREMS = [
     "Acn.C03.ideal_bounds", "Acn.C03.stepwise_bounds", "Acn.C03.ideal_stepwise_reject",
     "Acn.C03.constructor_guard", "Acn.C03.continuous_bounds", "Acn.C03.continuous_bounds_noise",
     "Acn.C03.charge_rejects_and_returns", "Acn.C03.charge_bounds_all", "Acn.C03.bounds_along_history",
     "Acn.C03.states_along_history", "Acn.C03.ev_rate_le_pilot", "Acn.C03.noise_clamp_needed",
+    "Acn.C03.evse_rate_le_pilot", "Acn.C03.evse_call_spec", "Acn.C03.evse_bounds_along_history",
 ]
 BUDGET = {"quick": 3000, "thorough": 60000, "search": 30000}
 TRUSTED = [
@@ -53,29 +54,44 @@ def err_of(e: BaseException) -> str:
     return I.err_name(e)
 
 
-def run_runs(spec: dict, ev: bool, runs: list) -> dict:
+def run_runs(spec: dict, ev: bool, runs: list, evse: dict = None) -> dict:
     """Every run starts from a freshly constructed battery; returns the observable state after
-    every call of every run."""
+    every call of every run.  With `evse` (an EVSE kind of core.impl) the battery's EV is plugged into
+    a freshly constructed EVSE of that class and every charge op is `evse.set_pilot(p, V, T)`."""
     from acnportal.acnsim.models.ev import EV
     out = {"ctor": None, "runs": []}
+    ev = bool(ev or evse)
     for ops in runs:
         try:
             b = I.make_battery(spec)
         except Exception as ex:  # noqa
             return {"ctor": err_of(ex), "runs": []}
         e = EV(0, 1, 0.0, "S", "s", b) if ev else None
+        s = None
+        if evse:
+            s = I.make_evse(evse, "S")
+            s.plugin(e)
         steps = []
         with I.noise_source() as ns:
             for o in ops:
                 before = I.batt_state(b)
+                if ev:
+                    before.update({"delivered": float(e.energy_delivered), "evrate": float(e.current_charging_rate)})
+                if s is not None:
+                    before["pilot"] = float(s.current_pilot)
                 calls0 = ns.calls
                 err = None
                 rate = 0.0
                 if o["op"] == "charge":
                     ns.value = float(I.num(o["nu"]))
                     try:
-                        target = e if ev else b
-                        rate = float(target.charge(I.num(o["p"]), I.num(o["V"]), I.num(o["T"])))
+                        if s is not None:
+                            # the rate is what the EV recorded (set_pilot returns nothing)
+                            s.set_pilot(I.num(o["p"]), I.num(o["V"]), I.num(o["T"]))
+                            rate = float(e.current_charging_rate)
+                        else:
+                            target = e if ev else b
+                            rate = float(target.charge(I.num(o["p"]), I.num(o["V"]), I.num(o["T"])))
                     except Exception as ex:  # noqa
                         err = err_of(ex)
                 else:
@@ -88,6 +104,9 @@ def run_runs(spec: dict, ev: bool, runs: list) -> dict:
                 if ev:
                     st["delivered"] = float(e.energy_delivered)
                     st["evrate"] = float(e.current_charging_rate)
+                if s is not None:
+                    st["pilot"] = float(s.current_pilot)
+                    st["attached"] = s.ev is e
                 steps.append(st)
         out["runs"].append(steps)
     return out
@@ -100,8 +119,11 @@ def op_wire(o: dict) -> dict:
     return {"op": "reset", "init": None if o.get("init") is None else f2b(I.num(o["init"]))}
 
 
-def wire(spec: dict, ev: bool, runs: list) -> dict:
-    return {"batt": I.batt_wire(spec), "ev": bool(ev), "runs": [[op_wire(o) for o in ops] for ops in runs]}
+def wire(spec: dict, ev: bool, runs: list, evse: dict = None) -> dict:
+    w = {"batt": I.batt_wire(spec), "ev": bool(ev or evse), "runs": [[op_wire(o) for o in ops] for ops in runs]}
+    if evse:
+        w["evse"] = I.kind_wire(evse)
+    return w
 
 
 def compare_runs(obs: dict, model: dict, runs: list) -> list:
@@ -129,6 +151,9 @@ def compare_runs(obs: dict, model: dict, runs: list) -> list:
                     out.append(f"{w}: delivered impl={a['delivered']!r} model={b2f(m['delivered'])!r}")
                 if not close(a["evrate"], b2f(m["evrate"])):
                     out.append(f"{w}: ev rate impl={a['evrate']!r} model={b2f(m['evrate'])!r}")
+            if "pilot" in a:
+                if "pilot" not in m or not close(a["pilot"], b2f(m["pilot"])):
+                    out.append(f"{w}: EVSE current_pilot impl={a['pilot']!r} model={b2f(m['pilot']) if 'pilot' in m else None!r}")
     return out
 
 
@@ -323,6 +348,157 @@ def _gen_exact(rng):
     return {"batt": spec, "ev": False, "ops": ops, "exact": True}
 
 
+# ------------------------------------------------------------------ the EVSE path (set_pilot -> EV.charge -> battery)
+
+ATOL = 1e-3   # acceptance tolerance of the EVSE classes (evse.py `_valid_rate`)
+# offsets from a boundary of the allowable set: inside the tolerance, at its razor edge, just outside
+EDGE_IN = [1e-9, 1e-6, 1e-4, 5e-4, 9.99e-4]
+EDGE_OUT = [1.001e-3, 2e-3, 0.5]
+# positive "numerical zeros" as left behind by an optimisation-based scheduler (all accepted as 0)
+# (not below 1e-9 A: see ASSUMPTIONS — at pilot/maximum < ~1e-13 the two-stage continuous law's
+# `pilot_transition_soc` rounds to 1.0 and a FULL battery divides by zero)
+RESIDUE = [1e-9, 1e-8, 3e-7, 1e-6, 1e-5, 1e-4, 3e-4, 5e-4, 9.99e-4]
+AV_RATES = [0] + list(range(6, 33))
+CC_RATES = [0, 8, 16, 24, 32]
+
+
+def _gen_kind(rng, sim=False):
+    """every EVSE class: continuous (min 0 / min > 0 / unbounded), deadband, finite rates."""
+    r = rng.random()
+    if r < 0.25:
+        mn = 0 if (sim or rng.random() < 0.7) else rng.choice([6, 8, 0.5])
+        return {"t": "cont", "min": mn, "max": rng.choice([32, 32, 16, 80, 32.5] + ([] if sim else ["inf"]))}
+    if r < 0.65:
+        return {"t": "deadband", "db": rng.choice([6, 6, 6, 8, 5.5]), "max": rng.choice([32, 32, 16, 48])}
+    c = rng.random()
+    if c < 0.35:
+        return {"t": "finite", "rates": list(CC_RATES)}
+    if c < 0.65:
+        return {"t": "finite", "rates": list(AV_RATES)}
+    return {"t": "finite", "rates": rng.sample([6, 8, 10, 12.5, 16, 20, 24, 30, 32], rng.randint(1, 5))}
+
+
+def _lower_edges(kind):
+    """boundaries below which the EVSE refuses (apart from 0): accepted down to edge - ATOL."""
+    t = kind["t"]
+    if t == "cont":
+        return [float(I.num(kind["min"]))]
+    if t == "deadband":
+        return [float(I.num(kind["db"]))]
+    return [float(I.num(r)) for r in kind["rates"] if float(I.num(r)) > 0]
+
+
+def _upper_edges(kind):
+    t = kind["t"]
+    if t == "finite":
+        return [float(I.num(r)) for r in kind["rates"] if float(I.num(r)) > 0]
+    mx = float(I.num(kind["max"]))
+    return [] if math.isinf(mx) else [mx]
+
+
+def _edge_pilot(rng, kind, p_invalid=0.08):
+    """A pilot for an EVSE of this class, seeking the edges of what `_valid_rate` accepts: positive
+    values within tolerance of 0, values within tolerance BELOW a lower edge (deadband end, minimum
+    rate, a listed rate) and ABOVE an upper edge, the razor edge itself, and (with probability
+    p_invalid) values just outside."""
+    t = kind["t"]
+    lo, hi = _lower_edges(kind), _upper_edges(kind)
+    zero_ok = t != "cont" or float(I.num(kind["min"])) <= 0
+    r = rng.random()
+    if r < p_invalid:
+        c = rng.random()
+        if c < 0.4 and lo and max(lo) > 0:
+            return rng.choice(lo) - rng.choice(EDGE_OUT + [ATOL])
+        if c < 0.7 and hi:
+            return rng.choice(hi) + rng.choice(EDGE_OUT + [ATOL])
+        if c < 0.85:
+            return -rng.choice([1e-9, 5e-4, 1.001e-3, 1.0])      # a negative pilot (within / beyond tolerance of 0)
+        return rng.choice(EDGE_OUT[:2]) if t != "cont" else -0.5
+    r = rng.random()
+    if r < 0.22 and zero_ok:
+        return rng.choice(RESIDUE)                               # accepted as "0": must not charge more than that
+    if r < 0.30 and zero_ok:
+        return 0.0
+    if r < 0.50 and lo and max(lo) > 0:
+        return rng.choice([x for x in lo if x > 0]) - rng.choice(EDGE_IN)   # accepted just below an edge
+    if r < 0.62 and hi:
+        return rng.choice(hi) + rng.choice(EDGE_IN + [0.0])      # accepted just above the maximum / a rate
+    if r < 0.72 and (lo or hi):
+        return rng.choice(lo + hi) + rng.choice([0.0, 0.0, 1e-4, 5e-4])
+    # interior
+    if t == "finite":
+        return float(rng.choice([x for x in lo] or [0.0]))
+    a = max(lo + [0.0])
+    b = hi[0] if hi else 80.0
+    return round(rng.uniform(a, b), rng.choice([0, 1, 4]))
+
+
+def _gen_evse_case(rng):
+    """one EVSE of any class with an EV plugged in; the history is a sequence of set_pilot calls."""
+    kind = _gen_kind(rng)
+    spec = _gen_batt(rng)
+    r = rng.random()
+    n = rng.randint(1, 6) if r < 0.6 else rng.randint(7, 20)
+    V0 = rng.choice(VS)
+    T0 = rng.choice(TP)
+    p0 = float(_edge_pilot(rng, kind))
+    cap = float(spec["cap"])
+    # mostly a battery that can still take far more than the pilot (the bound rate <= pilot is then
+    # the binding one); sometimes the boundary-seeking initial state of the battery stream
+    spec["init"] = round(rng.uniform(0, 0.7) * cap, 3) if rng.random() < 0.7 else _init_for(rng, spec, (max(p0, 0.0), V0, T0))
+    ops = []
+    for i in range(n):
+        c = rng.random()
+        if c < 0.05:
+            ops.append({"op": "reset", "init": None if rng.random() < 0.6 else round(rng.uniform(0, cap), 4)})
+            continue
+        V = V0 if rng.random() < 0.8 else rng.choice(VS)
+        T = T0 if rng.random() < 0.8 else rng.choice(TP)
+        p = p0 if i == 0 else (_edge_pilot(rng, kind) if rng.random() < 0.85 else _gen_pilot(rng, spec, V, T, float(spec["init"])))
+        m = rng.random()
+        if m < 0.02:
+            V = rng.choice([0, -208])
+        elif m < 0.04:
+            T = rng.choice([0, -5])
+        ops.append({"op": "charge", "p": float(p), "V": V, "T": T, "nu": _gen_nu(rng, spec, T)})
+    return {"batt": spec, "ev": True, "evse": kind, "ops": ops}
+
+
+def _gen_sim_case(rng):
+    """a whole simulation (core.simcase format): 1-4 stations covering the EVSE classes (always at
+    least one DeadbandEVSE or FiniteRatesEVSE), sessions back to back on every station, and a scripted
+    scheduler that is asked in every period and answers with edge-seeking pilots for every station."""
+    ns = rng.randint(1, 4)
+    kinds = [_gen_kind(rng, sim=True) for _ in range(ns)]
+    if all(k["t"] == "cont" for k in kinds):
+        kinds[rng.randrange(ns)] = {"t": "deadband", "db": rng.choice([6, 8]), "max": 32}
+    stations = [{"id": f"S{i}", "kind": k, "V": rng.choice(VS), "phase": 0} for i, k in enumerate(kinds)]
+    sessions = []
+    last = 0
+    for st in stations:
+        t = rng.randint(0, 2)
+        for _ in range(rng.randint(1, 2)):
+            dur = rng.randint(2, 9)
+            spec = _gen_batt(rng)
+            cap = float(spec["cap"])
+            spec["init"] = round(rng.uniform(0, 0.8) * cap, 3) if rng.random() < 0.8 else rng.choice([cap, cap * (1 - 1e-6), 0.95 * cap])
+            sessions.append({"session": f"x{len(sessions)}", "station": st["id"], "arrival": t, "departure": t + dur,
+                             "requested": round(rng.uniform(1, 30), 3), "batt": spec, "est": None})
+            t += dur + rng.choice([0, 0, 1, 2])
+        last = max(last, t)
+    rng.shuffle(sessions)
+    multi = rng.random() < 0.25     # multi-period schedules, asked only every `max_recompute` periods
+    step = rng.choice([2, 3]) if multi else 1
+    script = []
+    for t in range(0, last + 2):
+        sub = [st for st in stations if rng.random() < 0.9] or stations[:1]
+        script.append({"t": t, "sched": [[st["id"], [float(_edge_pilot(rng, st["kind"], p_invalid=0.004)) for _ in range(step)]] for st in sub]})
+    return {"sim": {"stations": stations, "constraint": None, "sessions": sessions, "recomputes": [],
+                    "period": rng.choice([1, 5, 5, 15, 0.5]), "max_recompute": step,
+                    "noise": [round(rng.gauss(0, 1.0), 4) for _ in range(rng.randint(1, 5))] + [rng.choice([0.0, 50.0, -50.0])],
+                    "sched": {"type": "scripted", "default": [], "script": script}}}
+
+
 def corpus():
     f1 = {"two": True, "cap": 50, "init": 40, "maxp": 7, "noise": 2.0, "ts": 0.8, "calc": "continuous"}
     return [
@@ -341,6 +517,31 @@ def corpus():
         # zero maximum power: the continuous calculation divides by it
         {"batt": {"two": True, "cap": 40, "init": 10, "maxp": 0, "noise": 0, "ts": 0.8, "calc": "continuous"}, "ev": False,
          "ops": [{"op": "charge", "p": 16, "V": 208, "T": 5, "nu": 0}, {"op": "charge", "p": 0, "V": 208, "T": 5, "nu": 0}]},
+        # through every EVSE class, pilots the class accepts only within its tolerance (and some it refuses)
+        {"batt": {"two": False, "cap": 60, "init": 10, "maxp": 6.656}, "ev": True, "evse": {"t": "deadband", "db": 6, "max": 32},
+         "ops": [{"op": "charge", "p": p, "V": 208, "T": 5, "nu": 0} for p in (32, 1e-4, 0, 3e-7, 5.9995, 3, 6, 9.99e-4, 32.0005, 32.002)]},
+        {"batt": {"two": True, "cap": 60, "init": 10, "maxp": 6.656, "noise": 0, "ts": 0.8, "calc": "continuous"}, "ev": True,
+         "evse": {"t": "finite", "rates": [8, 16, 24, 32]},
+         "ops": [{"op": "charge", "p": p, "V": 208, "T": 5, "nu": 0} for p in (8, 7.9995, 8.0005, 1e-4, 0, 12, 31.9991)]},
+        {"batt": {"two": True, "cap": 40, "init": 4, "maxp": 7, "noise": 0.5, "ts": 0.8, "calc": "stepwise"}, "ev": True,
+         "evse": {"t": "cont", "min": 6, "max": 32},
+         "ops": [{"op": "charge", "p": p, "V": 240, "T": 15, "nu": 0.2} for p in (5.9995, 6, 0, 32.0009, 16)]},
+        # a simulation on one station of each class; the scheduler's pilots carry solver residue
+        {"sim": {"stations": [{"id": "CONT", "kind": {"t": "cont", "min": 0, "max": 32}, "V": 208, "phase": 0},
+                              {"id": "DEAD", "kind": {"t": "deadband", "db": 6, "max": 32}, "V": 208, "phase": 0},
+                              {"id": "FINI", "kind": {"t": "finite", "rates": [8, 16, 24, 32]}, "V": 208, "phase": 0}],
+                 "constraint": None, "recomputes": [], "period": 5, "max_recompute": 1, "noise": [0.0],
+                 "sessions": [{"session": "a", "station": "CONT", "arrival": 0, "departure": 12, "requested": 40, "est": None,
+                               "batt": {"two": False, "cap": 60, "init": 10, "maxp": 6.656}},
+                              {"session": "b", "station": "DEAD", "arrival": 0, "departure": 12, "requested": 40, "est": None,
+                               "batt": {"two": False, "cap": 60, "init": 10, "maxp": 6.656}},
+                              {"session": "c", "station": "FINI", "arrival": 0, "departure": 12, "requested": 40, "est": None,
+                               "batt": {"two": True, "cap": 60, "init": 10, "maxp": 6.656, "noise": 0, "ts": 0.8, "calc": "continuous"}}],
+                 "sched": {"type": "scripted", "default": [], "script": [
+                     {"t": t, "sched": [["CONT", [c]], ["DEAD", [d]], ["FINI", [f]]]} for t, (c, d, f) in enumerate(zip(
+                         [32, 16, 7.5, 1e-4, 0, 3.2, 32, 0, 12, 5e-4, 20, 0],
+                         [32, 16, 6, 1e-4, 0, 8, 32, 3e-7, 12, 5.9995, 6, 0],
+                         [32, 16, 8, 1e-4, 0, 8, 24, 3e-7, 16, 7.9995, 8, 0]))]}}},
     ]
 
 
@@ -352,6 +553,10 @@ def generate(rng, n, tier):
             out.append(_gen_malformed(rng))
         elif k in (3, 11, 17):
             out.append(_gen_exact(rng))
+        elif k in (1, 5, 9, 13, 15, 19):
+            out.append(_gen_evse_case(rng))
+        elif k == 10:
+            out.append(_gen_sim_case(rng))
         else:
             out.append(_gen_case(rng))
     return out
@@ -359,16 +564,35 @@ def generate(rng, n, tier):
 
 # ------------------------------------------------------------------ implementation / model
 
+def run_sim_case(sc):
+    """the real Simulator on a core.simcase scenario; what C03 looks at: the recorded pilot and
+    rate matrices and every EV's battery."""
+    from core import simcase as S
+    o = S.run_impl(sc)
+    sts = [st["id"] for st in sc["stations"]]
+    evs = []
+    for spec, e in zip(sc["sessions"], o["evs"]):
+        evs.append({"session": e["session"], "station": spec["station"], "arrival": spec["arrival"], "departure": spec["departure"],
+                    "charge": e["charge"], "power": e["power"], "delivered": e["delivered"]})
+    return {"sim": True, "err": o["err"], "iter": o["iter"], "stations": sts, "pilots": o["pilots"], "rates": o["rates"], "evs": evs}
+
+
 def run_impl(case):
-    o = run_runs(case["batt"], case.get("ev", False), [case["ops"]])
+    if "sim" in case:
+        return run_sim_case(case["sim"])
+    o = run_runs(case["batt"], case.get("ev", False), [case["ops"]], case.get("evse"))
     return {"ctor": o["ctor"], "steps": o["runs"][0] if o["runs"] else []}
 
 
 def model_request(case):
-    return wire(case["batt"], case.get("ev", False), [case["ops"]])
+    if "sim" in case:
+        return None     # whole simulations: implementation-only oracle here (the Sim model's correspondence is C01/C02's)
+    return wire(case["batt"], case.get("ev", False), [case["ops"]], case.get("evse"))
 
 
 def compare(case, obs, model):
+    if "sim" in case:
+        return []
     return compare_runs({"ctor": obs["ctor"], "runs": [obs["steps"]] if obs["ctor"] is None else []}, model, [case["ops"]])
 
 
@@ -389,9 +613,50 @@ def expected_ctor(spec):
     return None
 
 
+def _sim_oracle(sc, obs):
+    """the property's last sentence: in every simulation 0 <= recorded rate <= recorded pilot at every
+    station and period (0 where the pilot is 0); every EV's battery ends within [initial charge, capacity]."""
+    fails = []
+    sts, pil, rates = obs["stations"], obs["pilots"], obs["rates"]
+    tainted = set()      # a station that was sent a negative pilot (outside the property's quantifier)
+    for i, st in enumerate(sts):
+        width = len(rates[i])
+        for t in range(width):
+            p = pil[i][t] if t < len(pil[i]) else 0.0
+            r = rates[i][t]
+            if p < 0:
+                tainted.add(st)
+            if st in tainted:
+                continue
+            w = f"simulation, station {st} ({sc['stations'][i]['kind']}) period {t}: charging_rates = {r!r}, pilot_signals = {p!r}"
+            if not _le(0.0, r, SL):
+                fails.append({"kind": "sim_negative_rate", "detail": w})
+                break
+            if not _le(r, p, SL):
+                fails.append({"kind": "sim_rate_exceeds_pilot", "detail": w})
+                break
+            if p == 0 and r != 0:
+                fails.append({"kind": "sim_zero_pilot_charges", "detail": w})
+                break
+    for spec, e in zip(sc["sessions"], obs["evs"]):
+        if spec["station"] in tainted:
+            continue
+        b = spec["batt"]
+        cap, init = float(I.num(b["cap"])), float(I.num(b["init"]))
+        if cap <= 0 or init > cap or float(I.num(b["maxp"])) < 0:
+            continue
+        w = f"simulation, session {spec['session']} at {spec['station']} battery {b}: final charge {e['charge']!r}, delivered {e['delivered']!r}"
+        if not _le(e["charge"], cap, SL) or not _le(init, e["charge"], SL) or not _le(0.0, e["delivered"], SL):
+            fails.append({"kind": "sim_charge_bounds", "detail": w})
+    return fails
+
+
 def oracle(case, obs):
+    if "sim" in case:
+        return _sim_oracle(case["sim"], obs)
     fails = []
     spec = case["batt"]
+    evse = case.get("evse")
     sl = 0.0 if case.get("exact") else SL
     kind = kind_of(spec)
     cap = float(I.num(spec["cap"]))
@@ -408,6 +673,15 @@ def oracle(case, obs):
         w = f"op {i} {o} on {kind} battery {spec} (charge before {b['charge']!r})"
         if st["err"] is not None and (st["charge"] != b["charge"] or st["power"] != b["power"]):
             fails.append({"kind": "failed_call_changed_state", "detail": f"{w}: {st['err']} but state {b} -> charge {st['charge']} power {st['power']}"})
+        elif st["err"] is not None and "delivered" in b and (st["delivered"] != b["delivered"] or st["evrate"] != b["evrate"]):
+            fails.append({"kind": "failed_call_changed_state", "detail": f"{w}: {st['err']} but the EV went {b} -> delivered {st['delivered']} rate {st['evrate']}"})
+        if evse and not st.get("attached", True):
+            fails.append({"kind": "evse_lost_ev", "detail": f"{w}: the EV is no longer attached to the EVSE"})
+        if evse and o["op"] == "charge" and st["err"] == "InvalidRate":
+            # refused by the EVSE (whether rightly is C13's question): nothing may have happened
+            if st["pilot"] != b["pilot"]:
+                fails.append({"kind": "failed_call_changed_state", "detail": f"{w}: InvalidRate but current_pilot {b['pilot']!r} -> {st['pilot']!r}"})
+            continue
         if o["op"] == "reset":
             init = o.get("init")
             if init is not None and float(I.num(init)) > cap:
@@ -437,7 +711,11 @@ def oracle(case, obs):
         if not _le(0.0, rate, sl):
             fails.append({"kind": "noise_negative_rate" if f1 else "negative_rate", "detail": f"{w}: rate {rate!r} < 0 (draw {o['nu']})"})
         if not _le(rate, p, sl):
-            fails.append({"kind": "rate_exceeds_pilot", "detail": f"{w}: rate {rate!r} > pilot {p!r}"})
+            fails.append({"kind": "rate_exceeds_pilot", "detail": f"{w}: rate {rate!r} > pilot {p!r}"
+                          + (f" (through {evse}: the EV was charged at more than the commanded pilot)" if evse else "")})
+        if evse and (st["pilot"] != p or not _le(rate, st["pilot"], sl)):
+            fails.append({"kind": "rate_exceeds_recorded_pilot", "detail": f"{w}: through {evse}: commanded pilot {p!r}, "
+                          f"EVSE current_pilot {st['pilot']!r}, rate recorded by the EV {rate!r}"})
         if not _le(0.0, pw, sl):
             fails.append({"kind": "noise_negative_rate" if f1 else "negative_power", "detail": f"{w}: power {pw!r} < 0"})
         if not _le(pw, maxp, sl):
@@ -471,16 +749,54 @@ def _active(spec, o, st):
     return rg.startswith(("cont:crossing", "cont:rampdown", "step:hi"))
 
 
+def _edge_class(kind, p):
+    """which edge of the EVSE's acceptance set a pilot sits at (None: interior / far away)."""
+    if p <= 0:
+        return None
+    if kind["t"] != "cont" or float(I.num(kind["min"])) <= 0:
+        if p <= ATOL * (1 + 1e-9):
+            return "near_zero"
+    for x in _lower_edges(kind):
+        if x > 0 and 0 < x - p <= ATOL * (1 + 1e-9):
+            return "below_edge"
+    for x in _upper_edges(kind):
+        if 0 < p - x <= ATOL * (1 + 1e-9):
+            return "above_edge"
+    return None
+
+
+def _sim_edges(sc, obs):
+    """(station kind, edge class) of every period in which an EV was charged under an edge pilot."""
+    out = []
+    for i, st in enumerate(sc["stations"]):
+        mine = [e for e in sc["sessions"] if e["station"] == st["id"]]
+        for t in range(len(obs["rates"][i])):
+            p = obs["pilots"][i][t] if t < len(obs["pilots"][i]) else 0.0
+            ec = _edge_class(st["kind"], p)
+            if ec and any(e["arrival"] <= t < e["departure"] for e in mine):
+                out.append((st["kind"]["t"], ec, obs["rates"][i][t] > 0))
+    return out
+
+
 def nontrivial(case, obs):
+    if "sim" in case:
+        return any(ch for _, _, ch in _sim_edges(case["sim"], obs))
     if obs["ctor"] is not None:
         return False
     return any(_active(case["batt"], o, st) for o, st in zip(case["ops"], obs["steps"]))
 
 
 def features(case, obs):
+    if "sim" in case:
+        sc = case["sim"]
+        out = ["sim", "sim:err:" + str(obs["err"])] + sorted({"sim:evse:" + st["kind"]["t"] for st in sc["stations"]})
+        for kt, ec, ch in _sim_edges(sc, obs):
+            out.append(f"sim:{kt}:{ec}:" + ("charging" if ch else "rate0"))
+        return out
     spec = case["batt"]
     k = kind_of(spec)
-    out = ["kind:" + k, "ev" if case.get("ev") else "plain", "len:" + ("1" if len(case["ops"]) == 1 else "2-6" if len(case["ops"]) <= 6 else "7-20" if len(case["ops"]) <= 20 else "21-50")]
+    evse = case.get("evse")
+    out = ["kind:" + k, ("evse:" + evse["t"]) if evse else "ev" if case.get("ev") else "plain", "len:" + ("1" if len(case["ops"]) == 1 else "2-6" if len(case["ops"]) <= 6 else "7-20" if len(case["ops"]) <= 20 else "21-50")]
     if case.get("exact"):
         out.append("exact_dyadic")
     if obs["ctor"] is not None:
@@ -496,6 +812,10 @@ def features(case, obs):
             continue
         p, V, T = float(I.num(o["p"])), float(I.num(o["V"])), float(I.num(o["T"]))
         out.append("regime:" + regime(spec, st["before"]["charge"], p, V, T))
+        if evse:
+            ec = _edge_class(evse, p)
+            if ec:
+                out.append(f"evse:{evse['t']}:accepted_{ec}:" + ("charging" if st["rate"] > 0 else "rate0"))
         if noise > 0 and p > 0 and k != "ideal":
             if st["rate"] == 0:
                 out.append("noise:clamped_to_zero")
@@ -514,8 +834,28 @@ def search(rng, n):
     return generate(rng, n, "search")
 
 
+def _shrink_sim(case, kind):
+    """one station (with its sessions and its rows of the schedules) if the failure survives."""
+    sc = case["sim"]
+    for st in sc["stations"]:
+        c = copy.deepcopy(sc)
+        c["stations"] = [x for x in c["stations"] if x["id"] == st["id"]]
+        c["sessions"] = [x for x in c["sessions"] if x["station"] == st["id"]]
+        for e in c["sched"].get("script", []):
+            if "sched" in e:
+                e["sched"] = [r for r in e["sched"] if r[0] == st["id"]]
+        try:
+            if any(f["kind"] == kind for f in _sim_oracle(c, run_sim_case(c))):
+                return {"sim": c}
+        except Exception:
+            pass
+    return case
+
+
 def shrink(case, kind):
     """shortest history: the failing call alone, started from the state it was made in."""
+    if "sim" in case:
+        return _shrink_sim(case, kind)
     obs = run_impl(case)
     bad = [f for f in oracle(case, obs) if f["kind"] == kind]
     if not bad or obs["ctor"] is not None:
